@@ -95,34 +95,35 @@ def nodeHash (X : XAlg) (d : Digest X.A) (cfg root : Bytes) : Digest X.A × Byte
   let d := d.write root
   (d, X.A.out d.finalize)
 
-/-- the `for len(p) >= Size` loop: `k` whole nodes -/
-def fullNodes (X : XAlg) : Nat → Xof X → Bytes → Xof X × Bytes
+/-- the `for len(p) >= Size` loop: `k` whole nodes.  `keep = false` models a caller that throws the bytes
+    away (the harness's skip step): the state evolves identically, the output is not accumulated. -/
+def fullNodes (X : XAlg) (keep : Bool) : Nat → Xof X → Bytes → Xof X × Bytes
   | 0, x, acc => (x, acc)
   | k+1, x, acc =>
     let cfg := setBytes x.cfg 8 (le32n x.nodeOffset)
     let (d, blk) := nodeHash X x.d cfg x.root
-    fullNodes X k { x with cfg := cfg, nodeOffset := (x.nodeOffset + 1) % 4294967296, d := d, block := blk,
-                           remaining := x.remaining - X.size } (acc ++ blk)
+    fullNodes X keep k { x with cfg := cfg, nodeOffset := (x.nodeOffset + 1) % 4294967296, d := d, block := blk,
+                                remaining := x.remaining - X.size } (if keep then acc ++ blk else acc)
 
 /-- first statement of Read: the first Read finalizes the root hash -/
 def Xof.enterRead (x : Xof X) : Xof X :=
   if x.readMode then x else { x with root := X.A.out x.d.finalize, readMode := true }
 
 /-- phase 3: a node that is only partly consumed (`0 < todo < Size`) stays in `block` -/
-def Xof.partialNode (x : Xof X) (todo : Nat) (acc : Bytes) : Xof X × Bytes :=
+def Xof.partialNode (x : Xof X) (keep : Bool) (todo : Nat) (acc : Bytes) : Xof X × Bytes :=
   let cfg := if x.remaining < X.size then setBytes x.cfg 0 [UInt8.ofNat x.remaining] else x.cfg
   let cfg := setBytes cfg 8 (le32n x.nodeOffset)
   let (d, blk) := nodeHash X x.d cfg x.root
   ({ x with cfg := cfg, nodeOffset := (x.nodeOffset + 1) % 4294967296, d := d, block := blk,
-            offset := todo, remaining := x.remaining - todo }, acc ++ blk.take todo)
+            offset := todo, remaining := x.remaining - todo }, if keep then acc ++ blk.take todo else acc)
 
 /-- phases 2 and 3 (the buffered node is exhausted, `x.offset = 0`): `n` more bytes -/
-def Xof.readNodes (x : Xof X) (n : Nat) (acc : Bytes) : Xof X × Bytes :=
-  let (x, acc) := fullNodes X (n / X.size) x acc
-  if n % X.size > 0 then x.partialNode (n % X.size) acc else (x, acc)
+def Xof.readNodes (x : Xof X) (keep : Bool) (n : Nat) (acc : Bytes) : Xof X × Bytes :=
+  let (x, acc) := fullNodes X keep (n / X.size) x acc
+  if n % X.size > 0 then x.partialNode keep (n % X.size) acc else (x, acc)
 
 /-- `Read(p)` with `len(p) = plen`: the new state, the bytes stored in `p[:n]`, and whether io.EOF is returned -/
-def Xof.read (x : Xof X) (plen : Nat) : Xof X × Bytes × Bool :=
+def Xof.readG (x : Xof X) (keep : Bool) (plen : Nat) : Xof X × Bytes × Bool :=
   let x := x.enterRead
   if x.remaining = 0 then (x, [], true)
   else
@@ -133,12 +134,17 @@ def Xof.read (x : Xof X) (plen : Nat) : Xof X × Bytes × Bool :=
       if n < br then
         ({ x with offset := x.offset + n, remaining := x.remaining - n }, (x.block.drop x.offset).take n, false)
       else
-        let (x', out) := Xof.readNodes { x with offset := 0, remaining := x.remaining - br } (n - br)
+        let (x', out) := Xof.readNodes { x with offset := 0, remaining := x.remaining - br } keep (n - br)
                             (x.block.drop x.offset)
         (x', out, false)
     else
-      let (x', out) := x.readNodes n []
+      let (x', out) := x.readNodes keep n []
       (x', out, false)
+
+def Xof.read (x : Xof X) (plen : Nat) : Xof X × Bytes × Bool := x.readG true plen
+
+/-- a Read whose output the caller discards -/
+def Xof.skip (x : Xof X) (plen : Nat) : Xof X := (x.readG false plen).1
 
 /-! ## the BLAKE2X construction -/
 
